@@ -52,7 +52,14 @@ ASSUMPTIONS = ['floating-point rounding is outside the model: agreement is requi
                'inputs (angle th from opposite, th >= 1e-7) at 4e-12 + 8e-16/th because the code normalises a cross '
                'product of length th computed in floats; the band edges |u x v| = 1e-10 and |p_perp| = 1e-8 themselves '
                'are avoided by the generator (model tests squared norms exactly, the code rounded norms); the snap '
-               '(decided on the normalised vectors since b998548) is accepted up to 4e-8 rad']
+               '(decided on the normalised vectors since b998548) is accepted up to 4e-8 rad',
+               'round 5: strata axis_rotation (model), astra-vecs (pure-NumPy geom_to_vec converters of astra_setup.py '
+               'against single-parameter evaluation; the other astra_* functions need the astra module, which is not '
+               'installed), validation (refused inputs with the documented exception type, check_bounds), accessors, '
+               'getitem-fan-model (fanCtor / fanGetitem). Not reached on purpose: __repr__/__str__, and '
+               'is_rotation_matrix / angles_from_matrix / to_lab_sys / to_local_sys of utility.py (not exported, no '
+               'caller anywhere in odl; is_rotation_matrix uses an elementwise product for ndarrays and '
+               'angles_from_matrix calls np.atan2, absent in this NumPy)']
 
 TOL = 1e-12
 PI2 = 2 * np.pi
